@@ -15,6 +15,7 @@ LEVEL = "exploration"
 TECHNIQUE = ('deterministic simulation with short_read faults: tape-decided raw read sizes on seven simulated source front ends; oracle = result from io.BytesIO')
 LEVEL_NOTE = ('seeded search over read schedules; blocking sources only')
 OPTIMIZED_EVERY = 25      # every 25th run is executed in a child interpreter started with python -O
+PBPY_EVERY = 50           # every 50th run (offset 6) is executed with protobuf's pure-Python backend
 COMPILED_EVERY = 25       # every 25th run (offset 12) is executed in a child that imports a mypyc build of the tree
 RUNS = {"quick": 60000, "thorough": 1500000}
 RULE = ("valid byte strings (real writer and reference encoder; delimited and not; leading empty frames) "
